@@ -401,7 +401,7 @@ class ExactAlgorithmCplex(ExactAlgorithmBase, PairwiseBasedAlgorithm):
             cost_to_place_after = cost_matrix[el_1][el_2][1]
             calc: float = cost_to_place_before + cost_to_place_after - 2 * cost_to_tie
             # if the test fails, then the optimization cannot be used
-            if calc > ExactAlgorithmCplex._PRECISION_THRESHOLD:
+            if calc > 0:
                 can_have_no_ties = False
                 break
 
